@@ -1,13 +1,13 @@
 CONSTANTS
   MaxLen = 3
-  Cap = 2
-  AllowClose = TRUE
+  Cap = 1
+  AllowClose = FALSE
   EmitUnlocked = FALSE
   StallFire = FALSE
-  FixedTimer = FALSE
+  FixedTimer = TRUE
   Split = FALSE
-  PeekStop = FALSE
-  WireGaps = FALSE
+  PeekStop = TRUE
+  WireGaps = TRUE
 SPECIFICATION Spec
-INVARIANT NoPanic
+INVARIANT TimingExact
 CHECK_DEADLOCK TRUE
